@@ -545,7 +545,8 @@ def _exec_run(net, op, ow_op, i, ctx, ctrl_desc, tmpdir, owm):
     expected_errors = (LoadflowNotConverged, ControllerNotConverged, NetCalculationNotConverged)
     if exc is not None:
         planned_or_natural = bool(wrapper.raised)
-        if isinstance(exc, expected_errors) and not op["continue_on_divergence"] and planned_or_natural:
+        if isinstance(exc, expected_errors) and not op["continue_on_divergence"] and \
+                (planned_or_natural or isinstance(exc, ControllerNotConverged)):
             ctx.conclusive += 1
             ctx.features.append(f"{ctrl_key}|{sorted((w[0], w[1]) for w in wanted)}|{path}|raised-documented")
             ctx.event("run_timeseries", type(exc).__name__, wrapper.n, dumps, sigs)
